@@ -640,6 +640,19 @@ fn unix_client(listener_path: &str, own_name: Option<&str>) -> i32 {
     }
 }
 
+/// A listening unix socket with an autobound address in the abstract namespace.
+fn abstract_listener() -> i32 {
+    unsafe {
+        let fd = libc::socket(libc::AF_UNIX, libc::SOCK_STREAM | libc::SOCK_CLOEXEC, 0);
+        let mut a: libc::sockaddr_un = std::mem::zeroed();
+        a.sun_family = libc::AF_UNIX as u16;
+        if fd < 0 || libc::bind(fd, std::ptr::from_ref(&a).cast(), 2) != 0 || libc::listen(fd, 16) != 0 {
+            simk::runner::harness_error(&format!("C18: cannot create an autobound listener: errno {}", errno()));
+        }
+        fd
+    }
+}
+
 fn inet_listener() -> (i32, u16) {
     unsafe {
         let fd = libc::socket(libc::AF_INET, libc::SOCK_STREAM | libc::SOCK_CLOEXEC, 0);
@@ -827,6 +840,7 @@ fn run_ext_ops(dec: Dec, opts: &RunOpts, slot: u64, rounds: usize) -> RunOut {
             let (lpa, lpb) = (format!("{base}/la.sock"), format!("{base}/lb.sock"));
             let (la, lb) = (unix_listener(&lpa), unix_listener(&lpb));
             let ((lia, pa), (lib, pb)) = (inet_listener(), inet_listener());
+            let (ala, alb) = (abstract_listener(), abstract_listener());
             let cpath = |n: &str| std::ffi::CString::new(n).unwrap();
             let fa = unsafe { libc::open(cpath(&format!("{base}/fa")).as_ptr(), libc::O_RDWR | libc::O_CREAT | libc::O_CLOEXEC, 0o644) };
             let fb = unsafe { libc::open(cpath(&format!("{base}/fb")).as_ptr(), libc::O_RDWR | libc::O_CREAT | libc::O_CLOEXEC, 0o644) };
@@ -839,33 +853,47 @@ fn run_ext_ops(dec: Dec, opts: &RunOpts, slot: u64, rounds: usize) -> RunOut {
             let mut verdict: Option<Violation> = None;
             for round in 0..rounds {
                 ud += 16;
-                let kind = s.dec.choose(K::Op, 10);
+                let kind = s.dec.choose(K::Op, 11);
                 nops += 1;
                 let v: Option<Violation> = match kind {
                     // ---- connect
                     0 => {
                         kinds.insert("connect");
-                        let target = s.dec.choose(K::Arg, 4);
+                        let target = s.dec.choose(K::Arg, 5);
                         let (ta, tb) = match target {
-                            0 | 1 => (lpa.clone(), lpb.clone()),
+                            0 | 1 | 4 => (lpa.clone(), lpb.clone()),
                             2 => (format!("{base}/missing-a"), format!("{base}/missing-b")),
                             _ => (format!("{base}/fa"), format!("{base}/fb")),
                         };
                         let sa = unsafe { libc::socket(libc::AF_UNIX, libc::SOCK_STREAM | libc::SOCK_CLOEXEC, 0) };
                         let sb = unsafe { libc::socket(libc::AF_UNIX, libc::SOCK_STREAM | libc::SOCK_CLOEXEC, 0) };
-                        let arg = SocketAddressUnix::try_from_unix(&UnixString::try_from_string(ta.clone()).unwrap()).unwrap();
+                        // target 4: a listener in the abstract namespace (autobound): there the length
+                        // of the address is part of the name
+                        let arg = if target == 4 {
+                            match rusl::network::get_unix_sock_name(fd_of(ala)) {
+                                Ok(a) => a,
+                                Err(e) => return ext_viol("Connect", "harness", format!("get_unix_sock_name: {e:?}")),
+                            }
+                        } else {
+                            SocketAddressUnix::try_from_unix(&UnixString::try_from_string(ta.clone()).unwrap()).unwrap()
+                        };
                         let e = unsafe { Sqe::new_connect_unix(fd_of(sa), &arg, ud, no) };
                         let got = match submit_reap(&mut ring, vec![(ud, e)]) {
                             Ok(g) => g[&ud],
                             Err(v) => return Some(v),
                         };
-                        let (a, l) = sun(&tb);
+                        let (mut a, mut l) = sun(&tb);
+                        if target == 4 {
+                            l = 110;
+                            unsafe { libc::getsockname(alb, std::ptr::from_mut(&mut a).cast(), &mut l) };
+                        }
                         let tw = unsafe { libc::connect(sb, std::ptr::from_ref(&a).cast(), l) };
                         let tw = if tw < 0 { -errno() } else { 0 };
+                        let (la, lb) = if target == 4 { (ala, alb) } else { (la, lb) };
                         log.push(format!("connect target {target} -> ring {got} twin {tw}"));
                         let mut v = None;
                         if got != tw {
-                            v = ext_viol("Connect", "result-differs", format!("connect through the ring to {} gives {got}, connect(2) gives {tw}", if target < 2 { "a listening socket" } else if target == 2 { "a missing path" } else { "a regular file" }));
+                            v = ext_viol("Connect", "result-differs", format!("connect through the ring to {} gives {got}, connect(2) gives {tw}", if target < 2 { "a listening socket" } else if target == 2 { "a missing path" } else if target == 4 { "a listening socket in the abstract namespace" } else { "a regular file" }));
                         } else if tw == 0 {
                             // side effect: the listener has a connection to hand out
                             let (ra, rb) = (readable_now(la), readable_now(lb));
@@ -1212,6 +1240,68 @@ fn run_ext_ops(dec: Dec, opts: &RunOpts, slot: u64, rounds: usize) -> RunOut {
                         log.push(format!("await_single x{n} async {asynch} -> {}", if v.is_some() { "violation" } else { "ok" }));
                         v
                     }
+                    // ---- more completions than the completion ring holds, polled with the peek call
+                    10 => {
+                        kinds.insert("overflow_peek");
+                        let sq = entries.next_power_of_two() as usize;
+                        let cq = 2 * sq;
+                        let extra = 1 + s.dec.choose(K::Arg, sq as u32) as usize;
+                        let total = cq + extra;
+                        let dfa_fd = fd_of(dfa);
+                        let mut names: Vec<UnixString> = Vec::with_capacity(total);
+                        for i in 0..total {
+                            names.push(UnixString::try_from_string(format!("o{round}_{i}")).unwrap());
+                        }
+                        let mut submitted = 0usize;
+                        let mut v = None;
+                        // first fill the completion ring exactly, let it settle, then the surplus
+                        for phase_end in [cq, total] {
+                            while submitted < phase_end && v.is_none() {
+                                let n = (phase_end - submitted).min(sq);
+                                for i in submitted..submitted + n {
+                                    let e = unsafe { Sqe::new_mkdirat(Some(dfa_fd), &names[i], Mode::from(0o755), ud + i as u64, no) };
+                                    let Some(slot) = ring.get_next_sqe_slot() else {
+                                        return ext_viol("Overflow", "no-sqe-slot", format!("no submission slot for entry {i} although everything flushed so far was submitted"));
+                                    };
+                                    unsafe { slot.write(e) };
+                                }
+                                ring.flush_submission_queue();
+                                match io_uring_enter(ring.fd, n as u32, 0, IoUringEnterFlags::empty()) {
+                                    Ok(_) => submitted += n,
+                                    Err(e) => v = ext_viol("Overflow", "enter-failed", format!("submitting {n} entries: {e:?}")),
+                                }
+                            }
+                            std::thread::sleep(std::time::Duration::from_millis(30));
+                        }
+                        for i in 0..total {
+                            let twin = std::ffi::CString::new(format!("o{round}_{i}")).unwrap();
+                            unsafe { libc::mkdirat(dfb, twin.as_ptr(), 0o755) };
+                        }
+                        // reap everything: what did not fit into the ring is handed over by the kernel when
+                        // the application asks for events, even without waiting for any
+                        let mut seen = std::collections::BTreeSet::new();
+                        let t0 = std::time::Instant::now();
+                        while v.is_none() && seen.len() < total && t0.elapsed().as_millis() < 3000 {
+                            while let Some(c) = ring.get_next_cqe() {
+                                let (u, res) = (c.0.user_data, c.0.res);
+                                if u < ud || u >= ud + total as u64 || res != 0 || !seen.insert(u) {
+                                    v = ext_viol("Overflow", "wrong-completion", format!("completion user_data {u} res {res} (expected each of {total} mkdirat entries once, res 0)"));
+                                    break;
+                                }
+                            }
+                            if seen.len() < total {
+                                if let Err(e) = io_uring_enter(ring.fd, 0, 0, IoUringEnterFlags::IORING_ENTER_GETEVENTS) {
+                                    v = ext_viol("Overflow", "enter-failed", format!("peek: {e:?}"));
+                                }
+                                std::thread::sleep(std::time::Duration::from_micros(200));
+                            }
+                        }
+                        if v.is_none() && seen.len() < total {
+                            v = ext_viol("Overflow", "completion-missing", format!("{} of {total} completions never appeared: {cq} fit the completion ring, the other {extra} were parked by the kernel and have to be handed over when the application polls with io_uring_enter(to_submit 0, min_complete 0, GETEVENTS)", total - seen.len()));
+                        }
+                        log.push(format!("overflow {total} on cq {cq} -> {}", if v.is_some() { "violation" } else { "all reaped" }));
+                        v
+                    }
                     // ---- linked chain of directory operations
                     _ => {
                         kinds.insert("linked");
@@ -1329,7 +1419,7 @@ fn run_ext_ops(dec: Dec, opts: &RunOpts, slot: u64, rounds: usize) -> RunOut {
                     break;
                 }
             }
-            close_all(&[la, lb, lia, lib, fa, fb, dfa, dfb]);
+            close_all(&[la, lb, lia, lib, ala, alb, fa, fb, dfa, dfb]);
             drop(ring);
             drop(reg0);
             drop(reg1);
@@ -1367,6 +1457,7 @@ fn run_ext_ops(dec: Dec, opts: &RunOpts, slot: u64, rounds: usize) -> RunOut {
             "poll_add" => "ops.kind.poll_add",
             "fixed" => "ops.kind.fixed_buffers",
             "await_single" => "ops.kind.await_single",
+            "overflow_peek" => "ops.kind.overflow_peek",
             _ => "ops.kind.linked_chain",
         };
         out.counters.insert(key, 1);
@@ -1402,7 +1493,7 @@ impl Check for C18 {
         8
     }
     fn rule(&self) -> String {
-        "the family of a case is chosen by a hash of its number, a quarter each: (a) one ring (1..64 entries) driven with 4 (thorough: up to 40) seeded batches of 1..8 independent entries drawn from mkdirat, openat (create or not), writev (1..3 iovecs), readv, statx, renameat, unlinkat (file/dir), close, timeout, socket, incl. operations that must fail (missing names, closed descriptors); each batch is reaped completely, completions are matched by user_data (the kernel's completion order is not controlled) and every result is compared with the equivalent direct system call executed in a twin directory, then both directories are compared; exactly one completion per submission. (b) one ring (2..32 entries, plain / SQE128 / CQE32) driven with 6 (thorough: up to 30) seeded rounds drawn from: connect (listening socket, missing path, regular file) vs connect(2) incl. the pending connection it leaves; accept of a pre-connected named or unnamed unix client / loopback TCP client, with or without address buffers, initial length 0/2/8/16/20/110/128, buffers zeroed or 0xff, compared with accept4(2) for result, written length, address bytes and canaries around both buffers; sendmsg (1..30000 bytes, 1..3 iovecs, 0..5 SCM_RIGHTS descriptors) vs sendmsg(2), judged by what the peer receives; recvmsg (data buffer 1..5000, control buffer 0..200 bytes, 0..3 descriptors) vs recvmsg(2) for result, bytes, descriptors found by rusl's control-message iterator (identity by fstat) and canaries; poll_add on a descriptor in a ready state (writable / readable / hung up) vs poll(2); write_fixed + read_fixed on registered buffers at seeded offsets vs pwrite/pread incl. bytes outside the requested range; linked chains of 2..5 dependent directory operations (mkdir, create, rename, unlink, close of a bad descriptor) vs the same calls one after the other (the twin follows the ring on whether a failure severs the chain, which is kernel-version dependent, and requires cancelled entries to form a suffix that starts after a failed entry). (c, half of the cases) setup + drop with a mapping/descriptor ledger at the system-call seam, on the real kernel and on the ring stub (both IORING_FEAT_SINGLE_MMAP and two-mapping layouts), with io_uring_setup or the 1st/2nd/3rd mmap failing by decision: every ring mapping unmapped exactly once with its own length, nothing else unmapped, descriptor closed exactly once, nothing left after a failed setup (the same ledger verdict closes every operation run). non-trivial = batch run with >=4 compared operations incl. a failing one, a socket run with >=2 operation kinds, or a setup fault that fired; distinct = hash of configuration and results".into()
+        "the family of a case is chosen by a hash of its number, a quarter each: (a) one ring (1..64 entries) driven with 4 (thorough: up to 40) seeded batches of 1..8 independent entries drawn from mkdirat, openat (create or not), writev (1..3 iovecs), readv, statx, renameat, unlinkat (file/dir), close, timeout, socket, incl. operations that must fail (missing names, closed descriptors); each batch is reaped completely, completions are matched by user_data (the kernel's completion order is not controlled) and every result is compared with the equivalent direct system call executed in a twin directory, then both directories are compared; exactly one completion per submission. (b) one ring (2..32 entries, plain / SQE128 / CQE32) driven with 6 (thorough: up to 30) seeded rounds drawn from: connect (listening socket, missing path, regular file) vs connect(2) incl. the pending connection it leaves; accept of a pre-connected named or unnamed unix client / loopback TCP client, with or without address buffers, initial length 0/2/8/16/20/110/128, buffers zeroed or 0xff, compared with accept4(2) for result, written length, address bytes and canaries around both buffers; sendmsg (1..30000 bytes, 1..3 iovecs, 0..5 SCM_RIGHTS descriptors) vs sendmsg(2), judged by what the peer receives; recvmsg (data buffer 1..5000, control buffer 0..200 bytes, 0..3 descriptors) vs recvmsg(2) for result, bytes, descriptors found by rusl's control-message iterator (identity by fstat) and canaries; poll_add on a descriptor in a ready state (writable / readable / hung up) vs poll(2); write_fixed + read_fixed on registered buffers at seeded offsets vs pwrite/pread incl. bytes outside the requested range; completion-ring overflow (2 x SQ + 1..SQ mkdirat entries submitted without reaping, then polled with the peek call: every completion must appear once); linked chains of 2..5 dependent directory operations (mkdir, create, rename, unlink, close of a bad descriptor) vs the same calls one after the other (the twin follows the ring on whether a failure severs the chain, which is kernel-version dependent, and requires cancelled entries to form a suffix that starts after a failed entry). (c, half of the cases) setup + drop with a mapping/descriptor ledger at the system-call seam, on the real kernel and on the ring stub (both IORING_FEAT_SINGLE_MMAP and two-mapping layouts), with io_uring_setup or the 1st/2nd/3rd mmap failing by decision: every ring mapping unmapped exactly once with its own length, nothing else unmapped, descriptor closed exactly once, nothing left after a failed setup (the same ledger verdict closes every operation run). non-trivial = batch run with >=4 compared operations incl. a failing one, a socket run with >=2 operation kinds, or a setup fault that fired; distinct = hash of configuration and results".into()
     }
     fn assumptions(&self) -> Vec<String> {
         vec![
